@@ -33,12 +33,14 @@ Expand(bag) == ExpandFrom(bag, 1)
 BagOf(q) == TLCEval([j \in 1..NK |-> Cardinality({i \in 1..Len(q) : q[i] = RowKinds[j]})])
 EmptyBag == [j \in 1..NK |-> 0]
 
-EqOn(t, s) == t[1] # NULL /\ s[1] # NULL /\ t[1] = s[1]             \* NULL never matches
+\* the ON clause: "id" is t.id = s.id; "id_tn0" is t.id = s.id AND t.n = 0 (a term on the target alone: target rows
+\* that fail it are not matched by anything and must be left alone)
+EqOn(on, t, s) == t[1] # NULL /\ s[1] # NULL /\ t[1] = s[1] /\ (on = "id_tn0" => t[2] = 0)           \* NULL never matches
 CondT(c, t, s) == CASE c = "none" -> TRUE [] c = "sn0" -> s[2] = 0 [] c = "tn0" -> t[2] = 0
 CondS(c, s) == CASE c = "none" -> TRUE [] c = "sn0" -> s[2] = 0 [] c = "tn0" -> FALSE
 Idx(q) == 1..Len(q)
-Matches(T, S, i) == {j \in Idx(S) : EqOn(T[i], S[j])}
-Deterministic(T, S) == \A i \in Idx(T) : Cardinality(Matches(T, S, i)) <= 1
+Matches(on, T, S, i) == {j \in Idx(S) : EqOn(on, T[i], S[j])}
+Deterministic(on, T, S) == \A i \in Idx(T) : Cardinality(Matches(on, T, S, i)) <= 1
 MinOf(a) == CHOOSE w \in a : \A w2 \in a : w <= w2
 FirstM(cl, t, s) == LET a == {w \in Idx(cl) : cl[w].k # "ins" /\ CondT(cl[w].c, t, s)} IN IF a = {} THEN 0 ELSE MinOf(a)
 FirstN(cl, s) == LET a == {w \in Idx(cl) : cl[w].k = "ins" /\ CondS(cl[w].c, s)} IN IF a = {} THEN 0 ELSE MinOf(a)
@@ -46,14 +48,14 @@ Has(cl, k) == \E w \in Idx(cl) : cl[w].k = k
 Cnt(cl, k, n) == IF Has(cl, k) THEN n ELSE -1        \* a count column exists only for clause kinds that are present
 
 \* ---------- ideal: per joined pair the first applicable clause; unmatched source rows inserted ----------
-Ideal(T, S, cl) ==
-  LET act(i) == LET m == Matches(T, S, i) IN
+Ideal(on, T, S, cl) ==
+  LET act(i) == LET m == Matches(on, T, S, i) IN
                 IF m = {} THEN <<"keep", T[i]>>
                 ELSE LET s == S[CHOOSE j \in m : TRUE]  w == FirstM(cl, T[i], s) IN
                      IF w = 0 THEN <<"keep", T[i]>>
                      ELSE IF cl[w].k = "del" THEN <<"del", T[i]>> ELSE <<"upd", <<T[i][1], s[2]>>>>
       acts == TLCEval([i \in Idx(T) |-> act(i)])
-      unmatched == {j \in Idx(S) : ~\E i \in Idx(T) : EqOn(T[i], S[j])}
+      unmatched == {j \in Idx(S) : ~\E i \in Idx(T) : EqOn(on, T[i], S[j])}
       ins == {j \in unmatched : FirstN(cl, S[j]) # 0}
   IN [bag |-> TLCEval([k \in 1..NK |-> Cardinality({i \in Idx(T) : acts[i][1] # "del" /\ acts[i][2] = RowKinds[k]})
                                        + Cardinality({j \in ins : S[j] = RowKinds[k]})]),
@@ -63,29 +65,29 @@ Ideal(T, S, cl) ==
 
 \* ---------- as built ----------
 Pairs(T, S) == {<<i, j>> : i \in Idx(T), j \in Idx(S)}
-Joined(T, S) == {p \in Pairs(T, S) : EqOn(T[p[1]], S[p[2]])}
-     \cup {<<i, 0>> : i \in {i \in Idx(T) : ~\E j \in Idx(S) : EqOn(T[i], S[j])}}
-     \cup {<<0, j>> : j \in {j \in Idx(S) : ~\E i \in Idx(T) : EqOn(T[i], S[j])}}
+Joined(on, T, S) == {p \in Pairs(T, S) : EqOn(on, T[p[1]], S[p[2]])}
+     \cup {<<i, 0>> : i \in {i \in Idx(T) : ~\E j \in Idx(S) : EqOn(on, T[i], S[j])}}
+     \cup {<<0, j>> : j \in {j \in Idx(S) : ~\E i \in Idx(T) : EqOn(on, T[i], S[j])}}
 Arm(cl, w, T, S, p) ==
   IF cl[w].k = "ins" THEN p[1] = 0 /\ CondS(cl[w].c, S[p[2]])          \* "target.rowid IS NULL [AND cond]"
   ELSE p[1] # 0 /\ p[2] # 0 /\ CondT(cl[w].c, T[p[1]], S[p[2]])        \* "ON [AND cond]"
 OpOf(cl, T, S, p) == LET a == {w \in Idx(cl) : Arm(cl, w, T, S, p)} IN IF a = {} THEN 0 ELSE MinOf(a)
 \* candidate rows: <<source index, clause index, target index>> (the last only keeps bag elements distinct)
-Cands(cl, T, S) == {<<p[2], OpOf(cl, T, S, p), p[1]>> : p \in {q \in Joined(T, S) : q[2] # 0 /\ OpOf(cl, T, S, q) # 0}}
-RECURSIVE Apply(_, _, _, _, _)
-Apply(cl, w, cur, S, cands) ==
+Cands(on, cl, T, S) == {<<p[2], OpOf(cl, T, S, p), p[1]>> : p \in {q \in Joined(on, T, S) : q[2] # 0 /\ OpOf(cl, T, S, q) # 0}}
+RECURSIVE Apply(_, _, _, _, _, _)
+Apply(on, cl, w, cur, S, cands) ==
   IF w > Len(cl) THEN cur
   ELSE LET mine == {c \in cands : c[2] = w} IN
        IF cl[w].k = "del" THEN
-            Apply(cl, w + 1, SelectSeq(cur, LAMBDA t : ~\E c \in mine : EqOn(t, S[c[1]])), S, cands)
+            Apply(on, cl, w + 1, SelectSeq(cur, LAMBDA t : ~\E c \in mine : EqOn(on, t, S[c[1]])), S, cands)
        ELSE IF cl[w].k = "upd" THEN
-            Apply(cl, w + 1, [i \in Idx(cur) |-> LET ms == {c \in mine : EqOn(cur[i], S[c[1]])} IN
+            Apply(on, cl, w + 1, [i \in Idx(cur) |-> LET ms == {c \in mine : EqOn(on, cur[i], S[c[1]])} IN
                                              IF ms = {} THEN cur[i] ELSE <<cur[i][1], S[(CHOOSE c \in ms : TRUE)[1]][2]>>], S, cands)
        ELSE LET RECURSIVE Ins(_, _)
                 Ins(q, js) == IF js = {} THEN q ELSE LET j == CHOOSE x \in js : TRUE IN Ins(Append(q, S[j[1]]), js \ {j})
-            IN Apply(cl, w + 1, Ins(cur, mine), S, cands)
-AsBuilt(T, S, cl) ==
-  LET cands == Cands(cl, T, S)  fin == Apply(cl, 1, T, S, cands) IN
+            IN Apply(on, cl, w + 1, Ins(cur, mine), S, cands)
+AsBuilt(on, T, S, cl) ==
+  LET cands == Cands(on, cl, T, S)  fin == Apply(on, cl, 1, T, S, cands) IN
   [bag |-> BagOf(fin),
    ins |-> Cnt(cl, "ins", Cardinality({c \in cands : cl[c[2]].k = "ins"})),
    upd |-> Cnt(cl, "upd", Cardinality({c \in cands : cl[c[2]].k = "upd"})),
@@ -99,15 +101,19 @@ Obs(res, m, st2) == [res |-> res, t |-> st2.t, s |-> st2.s, ins |-> m.ins, upd |
 NoCounts == [ins |-> -1, upd |-> -1, del |-> -1]
 Unsupported == {"talias", "salias", "sq"}
 
+OnOf(op) == IF "on" \in DOMAIN op THEN op.on ELSE "id"
+TxOf(op) == IF "tx" \in DOMAIN op THEN op.tx ELSE "none"
 Steps(st, op, D) ==
   CASE op.k = "setup" ->
          LET s2 == [t |-> BagOf(op.t), s |-> BagOf(op.s), made |-> TRUE, helper |-> st.helper] IN {R(s2, Obs("ok", NoCounts, s2))}
     [] op.k = "merge" ->
-         LET T == Expand(st.t)  S == Expand(st.s)
-             id == Ideal(T, S, op.cl)
-             ab == AsBuilt(T, S, op.cl)
+         LET T == Expand(st.t)  S == Expand(st.s)  on == OnOf(op)
+             id == Ideal(on, T, S, op.cl)
+             ab == AsBuilt(on, T, S, op.cl)
              hv == "C12.helper_table_visible" \in D
-             done(m) == LET s2 == [st EXCEPT !.t = m.bag, !.helper = hv] IN R(s2, Obs("ok", m, s2))
+             \* tx: the MERGE runs between BEGIN and ROLLBACK / COMMIT: after a rollback none of its effects remain (the counts
+             \* it reported are those of the statement)
+             done(m) == LET s2 == [st EXCEPT !.t = IF TxOf(op) = "rollback" THEN st.t ELSE m.bag, !.helper = hv] IN R(s2, Obs("ok", m, s2))
          IN IF "C12.alias_or_qualified_source_unsupported" \in D /\ op.form \in Unsupported
             THEN {R(st, Obs("exc", NoCounts, st))}
             \* as built UPDATE SET accepts a bare source column only: any other expression fails in the generated UPDATE, after the
@@ -116,30 +122,30 @@ Steps(st, op, D) ==
             THEN {RT(s2, Obs("exc", NoCounts, s2)) : s2 \in {[st EXCEPT !.helper = h] : h \in BOOLEAN}}
             ELSE {done(id)} \cup (IF "C12.same_key_rows_all_hit" \in D /\ ab # id THEN {done(ab)} ELSE {})
                  \* as built the counts are SQL NULL (written -2) instead of 0 when no candidate row exists at all
-                 \cup (IF "C12.null_counts_without_candidates" \in D /\ Cands(op.cl, T, S) = {}
+                 \cup (IF "C12.null_counts_without_candidates" \in D /\ Cands(on, op.cl, T, S) = {}
                        THEN {done([id EXCEPT !.ins = IF @ = -1 THEN -1 ELSE -2, !.upd = IF @ = -1 THEN -1 ELSE -2,
                                              !.del = IF @ = -1 THEN -1 ELSE -2])} ELSE {})
 
 \* ---- vocabulary ----
-CONSTANTS MaxT, MaxS, MaxCl, CondsUsed, FormsUsed
+CONSTANTS MaxT, MaxS, MaxCl, CondsUsed, FormsUsed, OnUsed, TxUsed
 RowSet == {RowKinds[j] : j \in 1..NK}
 Sorted(q) == \A j \in 1..(Len(q) - 1) : KindOf(q[j]) <= KindOf(q[j + 1])
 Tables(n) == {q \in SeqsUpTo(RowSet, n) : Sorted(q)}
 Clauses == [k : {"upd", "del"}, c : CondsUsed] \cup [k : {"ins"}, c : CondsUsed \ {"tn0"}]
 ClauseLists == SeqsUpTo(Clauses, MaxCl) \ {<<>>}
 Ops(st) ==
-  (IF st.made THEN {} ELSE {o \in [k : {"setup"}, t : Tables(MaxT), s : Tables(MaxS)] : Deterministic(o.t, o.s)})
-  \cup (IF st.made THEN {o \in [k : {"merge"}, cl : ClauseLists, form : FormsUsed, kw : {"lower", "upper"}] :
-                          /\ Deterministic(Expand(st.t), Expand(st.s)) /\ SumSeq(st.t) <= MaxT + MaxS
+  (IF st.made THEN {} ELSE {o \in [k : {"setup"}, t : Tables(MaxT), s : Tables(MaxS)] : Deterministic("id", o.t, o.s)})
+  \cup (IF st.made THEN {o \in [k : {"merge"}, cl : ClauseLists, form : FormsUsed, kw : {"lower", "upper"}, on : OnUsed, tx : TxUsed] :
+                          /\ Deterministic(o.on, Expand(st.t), Expand(st.s)) /\ SumSeq(st.t) <= MaxT + MaxS
                           /\ (o.form = "setexpr" => o.cl[1].k = "upd")} ELSE {})
 
 \* ---- C12 on the model ----
 StepOk(st, op, r) ==
   op.k = "merge" =>
-    LET T == Expand(st.t)  S == Expand(st.s)  id == Ideal(T, S, op.cl) IN
-    /\ r.obs.res = "ok" /\ r.post.t = id.bag /\ r.post.s = st.s                  \* Snowflake's result, source untouched
+    LET T == Expand(st.t)  S == Expand(st.s)  id == Ideal(OnOf(op), T, S, op.cl) IN
+    /\ r.obs.res = "ok" /\ r.post.t = (IF TxOf(op) = "rollback" THEN st.t ELSE id.bag) /\ r.post.s = st.s      \* Snowflake's result, source untouched
     /\ r.obs.ins = id.ins /\ r.obs.upd = id.upd /\ r.obs.del = id.del           \* true counts
     /\ ~r.obs.helper                                                            \* no helper object visible
     \* counts equal the rows actually affected
-    /\ (id.ins >= 0 /\ id.del >= 0 => SumSeq(r.post.t) = SumSeq(st.t) + id.ins - id.del)
+    /\ (id.ins >= 0 /\ id.del >= 0 /\ TxOf(op) # "rollback" => SumSeq(r.post.t) = SumSeq(st.t) + id.ins - id.del)
 =============================================================================
